@@ -78,6 +78,7 @@ def case_task(task):
     for _ in range(ncases):
         kind = rng.choice(["date", "date", "date", "time", "dt"])
         argv = [str(bindir / "dseq")]
+        alt_txt = None
         if kind == "date":
             K = rng.choice(["ymd", "ymd", "ymd", "ywd", "ymcw", "yd"])
             unit = rng.choice(["d", "d", "w", "mo", "y", "b"]) if K == "ymd" else rng.choice(["d", "d", "w"])
@@ -149,8 +150,10 @@ def case_task(task):
                 if abs(t2u - t1) >= 86400:
                     continue
                 t2 = t2u % 86400
-            if t1 == t2:
-                # equal bounds: 'around the clock until LAST is passed' is met by one element and by a full circle alike
+            # equal bounds: 'around the clock until LAST is passed' is met by one element and by a full circle alike,
+            # both are accepted (with --compute-from-last the circle has to end on LAST all the same)
+            equal = t1 == t2
+            if equal and (n == 0 or form == "guess"):
                 continue
             argv += [hms(t1)] + ([inc] if inc else []) + [hms(t2)]
             if from_last:
@@ -160,10 +163,12 @@ def case_task(task):
             else:
                 # run around the clock in the direction of INC until LAST is passed
                 L = t2
-                if sec > 0 and t2 < t1:
+                if sec > 0 and (t2 < t1 or equal):
                     L = t2 + 86400
-                if sec < 0 and t2 > t1:
+                if sec < 0 and (t2 > t1 or equal):
                     L = t2 - 86400
+                if equal:
+                    alt_txt = [(hms(t1),)]
                 k, e = 0, []
                 if not from_last:
                     while (sec > 0 and t1 + k * sec <= L) or (sec < 0 and t1 + k * sec >= L):
@@ -271,6 +276,8 @@ def case_task(task):
                        res_replay(r), cls=cls)
             continue
         ok = len(got) == len(exp_txt) and all(g in e for g, e in zip(got, exp_txt))
+        if not ok and alt_txt is not None and len(got) == len(alt_txt) and all(g in e for g, e in zip(got, alt_txt)):
+            ok = True
         if ok:
             sh.ok("seq", cls + ("empty" if not got else "normal",))
         else:
@@ -332,7 +339,7 @@ def main(tier, seed):
                 "more than expected+16 lines or 5 CPU-seconds is 'endless'. distinct_nontrivial = distinct (kind, calendar, "
                 "unit, sign, skip, from-last, outcome)")
     ctx.assumptions = ["compound date increments (1mo1d) and single-argument forms are not judged",
-                       "time bounds with FIRST == LAST are not judged (one element and a full circle both meet the statement)",
+                       "time bounds with FIRST == LAST: one element and a full circle (ending on LAST under --compute-from-last) both meet the statement",
                        "FIRST + INC must lie inside the supported calendar range",
                        "business-day increments are judged from business-day starts"]
     ctx.min_evals = 2000
